@@ -228,6 +228,8 @@ def gen(rng, knobs):
             h.add(h.regular(author=evgen_author(ev), kind=ev["kind"], tags=tags, created_at=ev["created_at"],
                             content=ev["content"]))
     h.ops.append(["advance", adv1])
+    if rng.random() < 0.25:
+        h.ops.append(["restart"])          # the pass is made by a freshly started relay
     h.ops.append(["gc"])
     for k in (20000, 29999, 25000):
         h.ops.append(["query", [{"kinds": [k]}]])
@@ -236,6 +238,8 @@ def gen(rng, knobs):
             v = rng.choice(vals[:8])
             h.add(h.expiring(v) if v not in ("NONE", "TWO") else h.regular())
         h.ops.append(["advance", rng.choice([0, 1, 2, 3600])])
+        if rng.random() < 0.25:
+            h.ops.append(["restart"])
         h.ops.append(["gc"])
     return {"backend": backend, "ops": h.ops}
 
@@ -345,6 +349,7 @@ def run(case, sim):
         return run_relay(case, sim)
     w, obs = store.run_store(sim, case["backend"], case["ops"], full_gc=True)
     viol, nontrivial = check(obs, case["backend"])
+    viol += oracles.restart_changes(obs, case["backend"])
     seen, v2 = set(), []
     for v in viol:
         if v["sig"] not in seen:
